@@ -181,6 +181,27 @@ def check_eig(res, ss, tag, zeroed, mu_given=None, refresh=False):
         Ared = F
     As_own = Ared / Tf[sidx][:, None]
     lam2 = np.linalg.eigvals(As_own)
+    # conditioning, measured: the same reduction from matrices moved by a few ulp, and the spectrum of a state matrix moved by
+    # 1e-14 (a defective zero eigenvalue - angle reference - moves with the square root of a perturbation)
+    jr = np.random.default_rng(12345)
+
+    def jit(M_, rel):
+        return M_ * (1.0 + rel * jr.choice([-1.0, 1.0], M_.shape))
+    try:
+        fxj, fyj, gxj, gyj = jit(fx, 4e-16), jit(fy, 4e-16), jit(gx, 4e-16), jit(gy, 4e-16)
+        Fj = fxj - fyj @ np.linalg.solve(gyj, gxj)
+        if len(zidx):
+            Fj = Fj[np.ix_(sidx, sidx)] - Fj[np.ix_(sidx, zidx)] @ np.linalg.solve(Fj[np.ix_(zidx, zidx)], Fj[np.ix_(zidx, sidx)])
+        As_j = Fj / Tf[sidx][:, None]
+        da_cond = float(np.max(np.abs(As_j - As_own)) / (1 + np.max(np.abs(As_own))))
+    except Exception:
+        da_cond = 0.0
+    lam_j = np.linalg.eigvals(jit(As_own, 1e-14))
+    if len(lam_j) == len(lam2) and len(lam2):
+        _, pj = match(lam2, lam_j)
+        spread = np.abs(lam2 - lam_j[pj])
+    else:
+        spread = np.zeros(len(lam2))
     cross, _ = match(lam, lam2) if len(lam) == len(lam2) else (float("inf"), None)
     if len(lam) != nz or cross > 1e-5:
         res.inconc("the two independent oracles disagree (%d finite generalised eigenvalues, %d states with T != 0, distance %.2e)" % (
@@ -193,8 +214,20 @@ def check_eig(res, ss, tag, zeroed, mu_given=None, refresh=False):
         d, perm = match(mu, lam2)
         res.count("modes_matched", len(mu))
         res.maxobs("max_mode_distance", d)
-        if d > 1e-6:
-            worst = np.abs(mu - lam2[perm]) / (1 + np.abs(lam2[perm]))
+        allow = 1e-6 * (1 + np.abs(lam2[perm])) + 30.0 * spread[perm]
+        over = np.abs(mu - lam2[perm]) / allow
+        if np.any(30.0 * spread[perm] > 1e-6):
+            res.count("ill_conditioned_modes_with_measured_allowance", int(np.sum(30.0 * spread[perm] > 1e-6)))
+        # the spectrum from the QZ decomposition of the whole pencil is the other, independent reference; a reported value
+        # is fine when either reference confirms it (the two-stage Schur complement loses digits of a structurally zero mode)
+        if over.max() > 1.0 and len(lam) == len(mu):
+            dq, pq = match(mu, lam)
+            over_q = np.abs(mu - lam[pq]) / (1e-6 * (1 + np.abs(lam[pq])))
+            if over_q.max() <= 1.0:
+                res.count("modes_confirmed_by_pencil_only")
+                over = over_q
+        if over.max() > 1.0:
+            worst = over
             j = int(np.argmax(worst))
             res.violate("eigenvalues_zero_time_constant" if (n - nz) > 0 else "eigenvalues_wrong",
                         "%s: reported eigenvalue %s has no counterpart in the spectrum of the linearised DAE (nearest %s; max Re reported "
@@ -206,7 +239,7 @@ def check_eig(res, ss, tag, zeroed, mu_given=None, refresh=False):
     if As.shape == As_own.shape:
         da = float(np.max(np.abs(As - As_own)) / (1 + np.max(np.abs(As_own))))
         res.maxobs("max_state_matrix_rel_difference", da)
-        if da > 1e-8:
+        if da > 1e-8 + 1e3 * da_cond:
             res.violate("state_matrix_zero_time_constant" if (n - nz) > 0 else "state_matrix",
                         "%s: EIG.As differs from T^-1(fx - fy gy^-1 gx) by %.3e (relative)" % (tag, da), zeroed=zeroed, n_zero=n - nz)
     elif not res.violations:
